@@ -73,6 +73,11 @@ type pathState struct {
 	hstates    map[*Value]*hashState
 	proveMemo  map[int]bool
 	pemLen     int
+	parsedTimes map[int]parsedTime
+	signs      []signEvent
+	certKey    map[*Value]string
+	faultsOn   bool
+	nfault     int
 	localLoc   *Value
 	tzOff      *Term
 	now        *Term
